@@ -69,7 +69,7 @@ def random_configs(rng, n):
                     "ts": [[t] + list(v) for t, v in sorted(ts.items())],
                     "ks": [[t] + list(v) for t, v in sorted(ks.items())],
                     "clefs": [[t, st] + list(v) for (t, st), v in sorted(clefs.items())],
-                    "measures": measures, "musical": 0, "nstaves": nst})
+                    "measures": measures, "musical": rng.choice([0, 0, 1]), "nstaves": nst})
     return out
 
 
@@ -99,8 +99,10 @@ def check_config(chk, score, cfg, out):
         chk.violation("s2c", "build.raises", {"cfg": cfg, "exc": repr(ex)}, op="build")
         return
     ts = np.arange(0, T + 1)
-    bt0 = ([e[2] for e in cfg["ts"] if e[0] == 0] or [4])[0]
-    short = bool(T * bt0 < sorted(cfg["qtab"])[0][1] * 4)      # the whole timeline is shorter than one beat
+    ts0 = ([e for e in cfg["ts"] if e[0] == 0] or [[0, 4, 4, 4]])[0]
+    q0 = sorted(cfg["qtab"])[0][1]
+    # the whole timeline is shorter than one beat (a musical beat in musical-beat mode)
+    short = bool(T * ts0[2] * ts0[3] < q0 * 4 * ts0[1]) if cfg.get("musical") else bool(T * ts0[2] < q0 * 4)
 
     def report(clause, detail, **attrs):
         chk.violation("s2c", clause, dict(cfg=cfg, **detail), replay={"cfg": cfg, "expected": out},
